@@ -4,7 +4,9 @@ Runtime monitoring: seeded, class-based hostile workloads drive the real Haldane
 StandardGeneticMap / ExtendedGeneticMap and DenseGeneticMappableMatrix.interp_xoprob (through both genotype-matrix
 classes).  A postcondition hook wrapped around both ``mapfn`` methods judges *every* call (also the ones the library
 makes internally from rprob*/interp_xoprob); the remaining laws are judged by the reference model in
-pbmon/oracle/gmaplaws.py, which is written from the statement only.
+pbmon/oracle/gmaplaws.py, which is written from the statement only.  Histories on one live map object also contain read-only
+steps (exports in either unit, copies, the congruence report) and remove_discrepancies; copies and re-imported exports take
+over as the live map, so every law is also demanded of objects obtained that way and on second-and-later calls.
 """
 import copy as pycopy
 import io
@@ -29,6 +31,7 @@ CLAUSES = {   # minimum = ~30 % of what a quick run evaluates
     "C11.xoprob.genpos": 3600, "C11.xoprob.start": 1800, "C11.xoprob.value": 3000,
     "C11.history.state": 2300, "C11.history.own": 1600, "C11.history.absent": 1600, "C11.history.linear": 1500,
     "C11.history.order": 900, "C11.history.dist": 3200, "C11.history.spline_arg": 200, "C11.history.gmap": 1600,
+    "C11.congruent": 7000, "C11.history.congruent": 180, "C11.history.derived": 250, "C11.history.discrepancies": 100,
 }
 HOOKS_REQUIRED = ["mapfn.post", "mapfn.post.internal"]
 RULE = ("seeded class-based generators.  mapfn family: distance arrays (uniform [0,3] M, cM-scale, tiny incl. denormals, "
@@ -43,8 +46,12 @@ RULE = ("seeded class-based generators.  mapfn family: distance arrays (uniform 
         "point / unit / short / long (running over the following markers) / mixed extents, both in the map and in the variants "
         "(optionally named, with function codes) handed to interp_gmap.  history family: one live map "
         "object of either class goes through 3-8 in-place steps (remove/select of markers or of a whole chromosome, reorder, "
-        "sort, group, ungroup, re-assignment of vrnt_genpos in M or cM, build_spline with other kind / fill value, a sibling map "
-        "constructed with spline=<the live map's dictionary>), and after every step its answers are judged against the reference "
+        "sort, group, ungroup, re-assignment of vrnt_genpos in M / Morgans / cM / centiMorgans (fresh, stretched, shuffled or with runs of "
+        "exactly tied positions), build_spline with other kind / fill value, a sibling map "
+        "constructed with spline=<the live map's dictionary>, read-only uses once or twice in a row - to_pandas / to_csv / to_egmap in "
+        "either unit under either unit name with default or custom column names and separators, copy / deepcopy (methods and the copy "
+        "module), congruence()/is_congruent() - after which a copy or the re-import of the export takes the live map's place in half "
+        "of the cases, remove_discrepancies), and after every step its answers are judged against the reference "
         "model on its current table (queries include every chromosome that has left the map).  Non-trivial: a map case always is (>= 2 markers); a mapfn case is when "
         "it has >= 2 distances.  distinct = digest of the full generated inputs.")
 ASSUME = [
@@ -67,6 +74,17 @@ ASSUME = [
     "the physical position of a row / variant is vrnt_phypos; vrnt_stop (extended maps) is a label of the row that never "
     "enters interpolation: a map derived by interp_gmap stores interp_genpos(chromosome, vrnt_phypos) and carries stop / name / "
     "function code unchanged with their rows",
+    "a map is congruent when, on every chromosome, genetic positions never decrease along ascending physical position; equal "
+    "consecutive positions (completely linked markers) are congruent, as the library documents ('>= the previous position').  "
+    "congruence()/is_congruent() are the map's own statement of that predicate: some marker of a chromosome is flagged if and only "
+    "if that chromosome has a descent (which markers are blamed is left open); remove_discrepancies keeps the remaining rows "
+    "unchanged and removes nothing from a chromosome without a descent (what it removes elsewhere is left open; a history ends "
+    "when it leaves < 2 markers on a chromosome)",
+    "reading a map (export, copy, congruence report) does not edit it: its table is judged again afterwards like after any step.  "
+    "A copy, and the re-import (from_pandas / from_csv / from_egmap with the units and column names used for writing) of a map's own "
+    "export, is the same map supplied another way: it holds the same rows (names / function codes are not compared) and must "
+    "obey every law of the history family from then on; a re-import starts with its own default spline, a copy carries the "
+    "spline state of its source",
     "an exception on an in-domain call is a violation (the property promises values), key clause C11.returns",
     "a map returned by interp_gmap is itself a genetic map: when its rows qualify (>= 2 per chromosome, distinct physical "
     "positions, none missing) the own-marker law is demanded of it; the row order of that product is not fixed",
@@ -896,9 +914,9 @@ def same_table(obj, h, model):
         return False
 
 
-def history_state(ctx, check, gm, h, model, coords, W):
+def history_state(ctx, check, gm, h, model, coords, W, icls=None):
     """Stored table of the live map == the reference table after the steps so far (clause C11.history.state)."""
-    icls = hist_class(h)
+    icls = icls or hist_class(h)
     S = lambda meth: site_of(gm, meth)  # noqa: E731
     mc, mp, mg = model_arrays(model)
     tab = O.table(mc, mp, mg)
@@ -1207,7 +1225,7 @@ def case_history(ctx, c):
                         if not ok:
                             return
                 # the live map is untouched by being read
-                if not history_state(ctx, ctx.check, gm, h, model, coords, W):
+                if not history_state(ctx, ctx.check, gm, h, model, coords, W, icls="read-only use of the map (export / copy / congruence report)"):
                     return
                 if export is not None:
                     if back is not None:
